@@ -90,6 +90,9 @@ func (n *NSQD) lookupLoop() {
 
 	// for announcements, lookupd determines the host automatically
 	ticker := time.NewTicker(15 * time.Second)
+	if verifLookupHeartbeat > 0 {
+		ticker.Reset(verifLookupHeartbeat)
+	}
 	defer ticker.Stop()
 	for {
 		if connect {
